@@ -1,5 +1,5 @@
 (* Extraction for the C01 correspondence driver (ExtrOcamlBasic only, no Extract Constant). *)
-From Coq Require Import Extraction ExtrOcamlBasic NArith ZArith List String Ascii.
+From Coq Require Import Extraction ExtrOcamlBasic NArith ZArith List.
 From AHK Require Import Lib.Res Lib.ByteStr Model.Tlv Model.Sym Model.Verify.
 Separate Extraction Z.of_N Z.to_N N.of_nat N.to_nat
   atom_eqb msg_eqb mlen lit as_bytes s_dh srp_kc srp_ks
